@@ -54,11 +54,14 @@ std::string synth_file(const std::string& spec) {
 		}
 		data->stripsInfo.hasPoints = true;
 		data->numTriangles = 5;
-		shp->SetGeomData(data.get());
-		int dataID = nif.GetHeader().AddBlock(std::move(data));
-		shp->DataRef()->index = dataID;
+		// the shape block comes first, its data block last: a cut inside the data leaves an intact shape that refers to it
+		auto shpPtr = shp.get();
+		auto dataPtr = data.get();
 		int id = nif.GetHeader().AddBlock(std::move(shp));
 		nif.GetRootNode()->childRefs.AddBlockRef(id);
+		int dataID = nif.GetHeader().AddBlock(std::move(data));
+		shpPtr->SetGeomData(dataPtr);
+		shpPtr->DataRef()->index = dataID;
 	}
 	else {
 		std::vector<Triangle> tris = {{0, 1, 4}, {1, 5, 4}, {2, 3, 6}, {3, 7, 6}};
